@@ -140,6 +140,12 @@ int main(int argc, char** argv) {
     fens.push_back("4k3/p7/8/1P6/1p6/8/P7/4K3 w - - 0 1");
     fens.push_back("4k3/7p/8/6P1/6p1/8/7P/4K3 b - - 0 1");
     fens.push_back("r3k2r/pp1p1ppp/8/2P1P3/2p1p3/8/PP1P1PPP/R3K2R w KQkq - 0 1");
+    // a king beside an unmoved enemy corner rook whose castling right is still there (the capture must clear the OTHER side's right)
+    fens.push_back("r3k3/1K6/8/8/8/8/8/8 w q - 0 1");
+    fens.push_back("4k2r/6K1/8/8/8/8/8/8 w k - 0 1");
+    fens.push_back("8/8/8/8/8/8/1k6/R3K3 b Q - 0 1");
+    fens.push_back("8/8/8/8/8/8/6k1/4K2R b K - 0 1");
+    fens.push_back("r3k2r/1K6/8/8/8/8/8/8 w kq - 0 1");
     long events = 0, states = 0, sames = 0, maxQueens = 0, nulls = 0, unmakes = 0;
     std::set<U64> distinct;
     std::vector<std::string> samples;
